@@ -433,4 +433,104 @@ theorem newBook_ok (os : List Order) (hw : ∀ o ∈ os, Wf o) : BookOk (newBook
       exact ih (fun x hx => hw x (by simp [hx])) _ (addOrder_ok b o hb (hw o (by simp)))
   exact this _ ⟨by simp, by simp⟩
 
+
+/-! ## orders of a book -/
+
+theorem mem_flatten_ticks {ts : List Tick} {o : Order} (h : o ∈ (ts.map (·.orders)).flatten) :
+    ∃ t ∈ ts, o ∈ t.orders := by
+  rw [List.mem_flatten] at h
+  obtain ⟨l, hl, ho⟩ := h
+  rw [List.mem_map] at hl
+  obtain ⟨t, ht, rfl⟩ := hl
+  exact ⟨t, ht, ho⟩
+
+theorem mem_flatten_ticks_of {ts : List Tick} {t : Tick} {o : Order} (ht : t ∈ ts) (ho : o ∈ t.orders) :
+    o ∈ (ts.map (·.orders)).flatten := by
+  rw [List.mem_flatten]
+  exact ⟨t.orders, List.mem_map.mpr ⟨t, ht, rfl⟩, ho⟩
+
+theorem ticksReach_orders {ts ts' : List Tick} (h : All2 TickReach ts ts') {o' : Order}
+    (ho' : o' ∈ (ts'.map (·.orders)).flatten) : ∃ o ∈ (ts.map (·.orders)).flatten, Reach o o' := by
+  obtain ⟨t', ht', hot'⟩ := mem_flatten_ticks ho'
+  obtain ⟨t, ht, r⟩ := all2_mem_right h ht'
+  obtain ⟨o, ho, ro⟩ := all2_mem_right r.2 hot'
+  exact ⟨o, mem_flatten_ticks_of ht ho, ro⟩
+
+/-- every order of the book after matching is an order of the book before, after allowed fills only -/
+theorem bookReach_orders {b b' : Book} (h : BookReach b b') {o' : Order} (ho' : o' ∈ b'.orders) :
+    ∃ o ∈ b.orders, Reach o o' := by
+  unfold Book.orders at *
+  rcases List.mem_append.mp ho' with h1 | h1
+  · obtain ⟨o, ho, r⟩ := ticksReach_orders h.1 h1
+    exact ⟨o, List.mem_append_left _ ho, r⟩
+  · obtain ⟨o, ho, r⟩ := ticksReach_orders h.2 h1
+    exact ⟨o, List.mem_append_right _ ho, r⟩
+
+theorem mem_insertTick (incr : Bool) (x : Order) (ts : List Tick) (o : Order)
+    (h : o ∈ ((insertTick incr x ts).map (·.orders)).flatten) : o = x ∨ o ∈ (ts.map (·.orders)).flatten := by
+  induction ts with
+  | nil => simp [insertTick] at h; left; exact h
+  | cons t ts ih =>
+    unfold insertTick at h
+    split at h
+    · simp only [List.map_cons, List.flatten_cons, List.mem_append, List.mem_singleton] at h ⊢
+      rcases h with (h | h) | h
+      · right; left; exact h
+      · left; exact h
+      · right; right; exact h
+    · by_cases hc : (if incr = true then decide (t.price > x.price) else decide (t.price < x.price)) = true
+      · rw [if_pos hc] at h
+        simp only [List.map_cons, List.flatten_cons, List.mem_append, List.mem_singleton, List.mem_cons, List.not_mem_nil, or_false] at h ⊢
+        rcases h with h | h | h
+        · left; exact h
+        · right; left; exact h
+        · right; right; exact h
+      · rw [if_neg hc] at h
+        simp only [List.map_cons, List.flatten_cons, List.mem_append] at h ⊢
+        rcases h with h | h
+        · right; left; exact h
+        · rcases ih h with h | h
+          · left; exact h
+          · right; right; exact h
+
+theorem mem_addOrder (b : Book) (x o : Order) (h : o ∈ (addOrder b x).orders) : o = x ∨ o ∈ b.orders := by
+  unfold addOrder at h
+  split at h
+  · cases hd : x.dir with
+    | buy =>
+      rw [hd] at h
+      simp only [Book.orders, List.mem_append] at h ⊢
+      rcases h with h | h
+      · rcases mem_insertTick false x b.buys o h with h | h
+        · left; exact h
+        · right; left; exact h
+      · right; right; exact h
+    | sell =>
+      rw [hd] at h
+      simp only [Book.orders, List.mem_append] at h ⊢
+      rcases h with h | h
+      · right; left; exact h
+      · rcases mem_insertTick true x b.sells o h with h | h
+        · left; exact h
+        · right; right; exact h
+  · right; exact h
+
+theorem mem_foldl_addOrder (os : List Order) (o : Order) (b : Book) (hb : o ∈ (os.foldl addOrder b).orders) :
+    o ∈ os ∨ o ∈ b.orders := by
+  induction os generalizing b with
+  | nil => right; exact hb
+  | cons x xs ih =>
+    rcases ih (addOrder b x) hb with h1 | h1
+    · left; simp [h1]
+    · rcases mem_addOrder b x o h1 with h2 | h2
+      · left; simp [h2]
+      · right; exact h2
+
+/-- `NewOrderBook(orders...)` contains only orders it was given -/
+theorem mem_newBook (os : List Order) (o : Order) (h : o ∈ (newBook os).orders) : o ∈ os := by
+  rcases mem_foldl_addOrder os o _ h with h1 | h1
+  · exact h1
+  · simp [Book.orders] at h1
+
+
 end Comdex.Amm
